@@ -108,11 +108,13 @@ PROPS["C08"] = {
         "quick": [
             {"name": "stats", "run": "^TestTimerStatistics$", "checks": 128000, "shards": 8},
             {"name": "hist", "run": "^TestHistograms$", "checks": 64000, "shards": 4},
+            {"name": "intervals", "run": "^TestTimerIntervalsIndependent$", "checks": 32000, "shards": 4},
             {"name": "binary", "run": "^TestBinaryPercentThresholds$", "checks": 64, "shards": 16, "binary": True, "shrinktime": "1s"},
         ],
         "thorough": [
             {"name": "stats", "run": "^TestTimerStatistics$", "checks": 1600000, "shards": 12, "timeout": 1700},
             {"name": "hist", "run": "^TestHistograms$", "checks": 800000, "shards": 4, "timeout": 1700},
+            {"name": "intervals", "run": "^TestTimerIntervalsIndependent$", "checks": 800000, "shards": 8, "timeout": 1700},
             {"name": "binary", "run": "^TestBinaryPercentThresholds$", "checks": 3200, "shards": 16, "binary": True, "shrinktime": "1s", "timeout": 1700},
         ],
     },
@@ -185,12 +187,12 @@ PROPS["C10"] = {
     "pkg": "c10", "level": "exploration",
     "jobs": {
         "quick": [
-            {"name": "patterns", "run": "^TestPatternSemantics$", "checks": 24000, "shards": 2},
+            {"name": "patterns", "run": "^TestPattern(Semantics|LongLived)$", "checks": 24000, "shards": 2},
             {"name": "stage", "run": "^TestTagStage$", "checks": 48000, "shards": 8},
             {"name": "server", "run": "^TestWholeServer$", "checks": 96, "shards": 16},
         ],
         "thorough": [
-            {"name": "patterns", "run": "^TestPatternSemantics$", "checks": 200000, "shards": 2, "timeout": 1700},
+            {"name": "patterns", "run": "^TestPattern(Semantics|LongLived)$", "checks": 200000, "shards": 2, "timeout": 1700},
             {"name": "stage", "run": "^TestTagStage$", "checks": 1000000, "shards": 14, "timeout": 1700},
             {"name": "server", "run": "^TestWholeServer$", "checks": 6400, "shards": 16, "timeout": 1700},
         ],
